@@ -31,6 +31,8 @@ crc_len!(crc_len1, 1);
 crc_len!(crc_len2, 2);
 crc_len!(crc_len3, 3);
 crc_len!(crc_len4, 4);
+crc_len!(crc_len6, 6);
+crc_len!(crc_len8, 8);
 
 /// all 2^8 bit vectors: LSB first
 #[kani::proof]
